@@ -204,6 +204,22 @@ CLAIMED = {
         'bounded time, connect() returning, service threads exiting. "Terminates while waiting" is modelled as the '
         'effect of close() at the wait() site; threads are not executed.',
    technique='contract-based deductive verification of the sequential obligations (pyvc); liveness not applicable'),
+ 'C04': dict(
+   category='proof',
+   text='Per endpoint, for all inputs: encode_frame/decode_frame of DEP_REQ/DEP_RES for both roles against an '
+        'independent frame layout (PFB bits, optional DID/NAD, F0 start octet at 106A, length octet); '
+        'Initiator.exchange and Target.exchange over the transport step replaced by its contract: every information '
+        'field handed to the transport is at most the MIU established at activation (precondition at every call site, '
+        'chaining loops with invariants and variants for every payload length), PNI stays in 0..3, DID/NAD presence '
+        'matches, only CommunicationError subclasses escape for every response the transport may deliver; '
+        'Initiator.send_dep_req_recv_dep_res over the frame exchange replaced by its contract: never returns a NACK, '
+        'an RTOX response carries its value, only CommunicationError subclasses escape.',
+   design_ref='DESIGN.md sections 5 (C04) and 6',
+   note='NOT decided: exactly-once delivery and reassembly under fault scripts, the composition of two real endpoints '
+        '(each is verified against an assumed contract of the step below it), Target transport recovery rules, '
+        'deactivate, clock progress of the deadline loop (assumed). With C19 (miu + header <= LR) the call-site '
+        'precondition gives "no frame exceeds the announced payload size".',
+   technique='contract-based deductive verification: modular layering with call-site preconditions (pyvc)'),
 }
 
 NOT_APPLICABLE = {}
